@@ -251,7 +251,11 @@ func genC03(c *Ctx) {
 		if n > 40 {
 			// long batches: defects next to the sizes a chunked implementation would use, everything else valid
 			run(n, []int{n - 1}, kBitflip)
-			run(n, []int{63, 64}, kPlusMinusD)
+			if n > 64 {
+				run(n, []int{63, 64}, kPlusMinusD)
+			} else {
+				run(n, []int{n - 2, n - 1}, kPlusMinusD)
+			}
 			if n > 128 {
 				run(n, []int{127, 128}, kSwapped)
 				run(n, []int{0, 64, 128}, kPolyCancel)
